@@ -23,8 +23,8 @@ ASSUMPTIONS = [
     "the oSQTH/WETH pool is the standard one (token0 = WETH, quote = WETH); LP token amounts are taken from the pool market's own position view (C07's subject)",
     "completeness (margin 0.1%) is asserted for open_deposit_mint, burn_and_withdraw and withdraw_uni_position only when the wallet covers the operation",
 ]
-MIN_NONTRIVIAL = {"quick": 4000, "thorough": 80000}
-REQUIRED_LABELS = ["mint.accepted", "mint.rejected.unsafe", "withdraw.accepted", "withdraw.rejected", "lp.deposited", "lp.withdraw.accepted", "liquidation.plain.half", "liquidation.plain.full", "liquidation.lp_first", "liquidation.capped", "twap.short_window", "twap.full_window", "safe.not_liquidated", "dust.rejected"]
+MIN_NONTRIVIAL = {"quick": 3000, "thorough": 60000}
+REQUIRED_LABELS = ["mint.accepted", "mint.rejected.unsafe", "withdraw.accepted", "withdraw.rejected", "lp.deposited", "lp.withdraw.accepted", "liquidation.plain.half", "liquidation.plain.full", "liquidation.lp_first", "liquidation.capped", "twap.short_window", "twap.full_window", "safe.not_liquidated", "dust.rejected", "lp.pending"]
 
 D = Decimal
 SCALE = D(10000)
@@ -53,7 +53,7 @@ def st_case(draw):
     ops = []
     for b in range(n):
         for _ in range(draw(st.integers(0, 3)) if b else draw(st.integers(1, 4))):
-            k = draw(st.sampled_from(["open", "open", "open_lp", "deposit", "mint", "burn_withdraw", "burn_withdraw", "lp_add", "lp_deposit", "lp_withdraw"]))
+            k = draw(st.sampled_from(["open", "open", "open_lp", "deposit", "mint", "burn_withdraw", "burn_withdraw", "lp_add", "lp_add", "lp_shrink", "lp_deposit", "lp_withdraw"]))
             v = draw(st.integers(0, 2))
             if k in ("open", "open_lp", "mint"):
                 ops.append([b, k, v, draw(st.sampled_from(["0.4", "0.5", "1", "3", "20"])), draw(st.sampled_from(["0", "0.5", "0.9", "0.999", "0.9999999", "1.0000001", "1.001", "1.2"]))])
@@ -63,6 +63,8 @@ def st_case(draw):
                 ops.append([b, k, v, draw(st.sampled_from(["0", "0.3", "1", "2"])), draw(st.sampled_from(["0", "0.2", "0.9", "1", "5"]))])
             elif k == "lp_add":
                 ops.append([b, k, draw(st.integers(-20, 5)), draw(st.integers(1, 25)), draw(st.sampled_from(["0.5", "3"]))])
+            elif k == "lp_shrink":
+                ops.append([b, k, draw(st.integers(0, 2)), draw(st.sampled_from(["0.3", "0.5", "0.9"]))])
             else:
                 ops.append([b, k, v, draw(st.integers(0, 2))])
     return {"rows": rows, "ops": ops, "weth": draw(st.sampled_from(["10", "100"])), "osqth": draw(st.sampled_from(["0", "50", "2000"]))}
@@ -230,6 +232,14 @@ def body(case, ctx: Ctx):
                     if pos not in w.lps:
                         w.lps.append(pos)
                     continue
+                elif k == "lp_shrink":
+                    # part of a free LP position's liquidity is removed without collecting: the position now carries pending amounts
+                    free = [p for p in w.lps if p in w.uni.positions and not w.uni.positions[p].transferred and w.uni.positions[p].liquidity > 1]
+                    if free:
+                        p_ = free[op[2] % len(free)]
+                        w.uni.remove_liquidity(p_, int(D(w.uni.positions[p_].liquidity) * D(op[3])), collect=False)
+                        labels.add("lp.pending")
+                    continue
                 elif k == "lp_deposit":
                     free = [p for p in w.lps if p in w.uni.positions and not w.uni.positions[p].transferred and w.uni.positions[p].liquidity > 0]
                     if not w.vaults or not free:
@@ -247,7 +257,7 @@ def body(case, ctx: Ctx):
                     ok, err, kind = True, None, "lp.withdraw"
             except Exception as e:  # noqa: a rejected operation is an outcome
                 ok, err = False, e
-                if k == "lp_add":
+                if k in ("lp_add", "lp_shrink"):
                     continue
                 kind = {"open": "mint", "open_lp": "mint", "mint": "mint", "deposit": "deposit", "burn_withdraw": "withdraw", "lp_deposit": "lp_deposit", "lp_withdraw": "lp.withdraw"}[k]
                 tgt = None
@@ -362,7 +372,7 @@ def body(case, ctx: Ctx):
 
 
 def shards(tier, seed):
-    n = 600 if tier == "quick" else 12000
+    n = 750 if tier == "quick" else 15000
     return [{"sub": "vaults", "idx": i, "n": n, "seed": derive_seed(seed, PROPERTY, "vaults", i)} for i in range(16)]
 
 
